@@ -743,6 +743,123 @@ def pipe_jobs(tier):
     return [jobs[i::16] for i in range(16)]
 
 
+# ------------------------------------------------------------------ (c3) a pipe whose far end stops reading, then a new target
+def bp_run(cfg, chooser):
+    """A.stdout is piped into B.stdin, B's remote side does not read: back-pressure pauses A.  After k
+    deliveries A's stdout is given a new target (DEVNULL, PIPE, a file).  From then on A must run to
+    completion and wait() returns with the exit status."""
+    k, retarget, total = cfg['k'], cfg['retarget'], cfg['total']
+    root = os.path.join(SCRATCH, 'bp%d' % os.getpid())
+    os.makedirs(root, exist_ok=True)
+    data = bytes((i * 11 + 5) % 253 for i in range(total))
+    loop = P.fresh(0)
+    P.install_wire_labels()
+    viol = []
+    try:
+        release = {}
+
+        async def handler(process):
+            if process.command == 'stuck':
+                release['ev'] = asyncio.Event()
+                await release['ev'].wait()
+                got = await process.stdin.read()
+                process.stdout.write(b'%d' % len(got))
+                process.exit(0)
+                return
+            process.stdout.write(data)
+            await process.stdout.drain()
+            process.exit(7)
+        pair = P.Pair(loop, sopts=dict(process_factory=handler, encoding=None, window=64, max_pktsize=32))
+        pair.handshake()
+        st, res = {}, {}
+
+        async def client():
+            st['b'] = await pair.c.create_process('stuck', encoding=None)
+            st['b'].channel.set_write_buffer_limits(high=100, low=20)
+            st['a'] = await pair.c.create_process('src', stdout=st['b'].stdin, encoding=None, window=64, max_pktsize=32)
+        t = loop.create_task(client())
+
+        async def switch():
+            a = st['a']
+            if retarget == 'devnull':
+                await a.redirect_stdout(asyncssh.DEVNULL)
+            elif retarget == 'pipe':
+                await a.redirect_stdout(asyncssh.PIPE)
+            else:
+                await a.redirect_stdout(os.path.join(root, 'rest'))
+        if os.path.exists(os.path.join(root, 'rest')):
+            os.unlink(os.path.join(root, 'rest'))
+        steps = 0
+        rt = None
+        while True:
+            loop.quiesce()
+            if rt is None and t.done() and steps >= k:
+                rt = loop.create_task(switch())
+                loop.quiesce()
+            opts = [x for x in (pair.ct, pair.st) if x in loop.deliverable()]
+            if not opts:
+                if rt is None and t.done():
+                    rt = loop.create_task(switch())
+                    continue
+                break
+            kk = chooser.choose(len(opts), label='deliver') if len(opts) > 1 else 0
+            P.deliver_packet(loop, opts[kk])
+            if t.done():
+                steps += 1
+            if steps > 8000:
+                raise Livelock('too many deliveries')
+
+        async def finish():
+            res['a'] = await st['a'].wait()
+        ft = loop.create_task(finish())
+        loop.flush_all(horizon=400000)
+        if rt is None or not rt.done():
+            viol.append(('pipe-hangs', 'giving A a new stdout target never finished'))
+        elif rt.exception() is not None:
+            viol.append(('pipe-raised', repr(rt.exception())))
+        elif not ft.done():
+            ch = st['a'].channel
+            viol.append(('producer-stuck', 'A.stdout got a new target (%s) after %d deliveries while its pipe into B was blocked; A never '
+                         'finishes although nothing holds its output back any more (A channel recv window %s)'
+                         % (retarget, k, getattr(ch, '_recv_window', '?'))))
+        elif ft.exception() is not None:
+            viol.append(('wait-raised', repr(ft.exception())))
+        else:
+            if res['a'].exit_status != 7:
+                viol.append(('pipe-exit-status', repr(res['a'].exit_status)))
+        if loop.unretrieved():
+            viol.append(('loop-exception', repr(loop.exc_log[0].get('exception'))[:200]))
+        return {'viol': viol, 'steps': steps}
+    except Livelock as exc:
+        return {'viol': [('livelock', str(exc))], 'steps': 0}
+    finally:
+        P.done(loop)
+
+
+def bp_worker(job):
+    acc = core.Acc()
+    for cfg, bound in job:
+        name = 'backpressure|%(retarget)s|total=%(total)d|k=%(k)d' % cfg
+
+        def check(obs, ch, cfg=cfg, name=name):
+            acc.add(core.digest((name, tuple(ch.choices))), transitions=obs['steps'],
+                    sample={'blocked_pipe_then': cfg} if cfg['k'] == 30 and cfg['retarget'] == 'devnull' and not ch.choices else None)
+            for k, d in obs['viol']:
+                acc.violation('process:%s:%s' % (k, cfg['retarget']), '%s ; %s' % (d, name), {'kind': 'bp', 'cfg': cfg, 'choices': ch.choices})
+        core.explore_dfs(lambda ch, cfg=cfg: bp_run(cfg, ch), bound, check)
+    shutil.rmtree(os.path.join(SCRATCH, 'bp%d' % os.getpid()), ignore_errors=True)
+    return acc
+
+
+def bp_jobs(tier):
+    jobs = []
+    for retarget in ('devnull', 'pipe', 'path'):
+        for total in (150, 600):
+            for k in list(range(0, 40, 3)) + [60, 100]:
+                jobs.append((dict(retarget=retarget, total=total, k=k), 0 if tier == 'quick' else 1))
+    return [jobs[i::16] for i in range(16)]
+
+
 # ------------------------------------------------------------------ (d) drain
 def drain_run(chooser, cut_at=None, limits=(100, 20)):
     loop = P.fresh(0)
@@ -837,6 +954,7 @@ def main(tier, seed):
     acc.merge(core.pmap(redirect_worker, [0]))
     acc.merge(core.pmap(late_redirect_worker, late_redirect_jobs(tier)))
     acc.merge(core.pmap(pipe_worker, pipe_jobs(tier)))
+    acc.merge(core.pmap(bp_worker, bp_jobs(tier)))
     acc.merge(core.pmap(drain_worker, [0]))
     shutil.rmtree(SCRATCH, ignore_errors=True)
     rule = ('(a) 7 byte streams + a 3-window stream + a multi-byte text stream x 15 read-call menus (read n / -1 / 0, '
@@ -846,7 +964,8 @@ def main(tier, seed):
             'redirection kinds, and stdout/stderr of a running process redirected to a path / file / other process / DEVNULL '
             'after every number 0..25 of packet deliveries (stream buffer empty, full with the channel paused, after '
             'EOF, after exit), with and without a read before; stdout or stderr of one process made the stdin of another '
-            '(at creation or by redirect_stdin) after every number 0..15 of deliveries; (d) two write+drain rounds under 5 write-buffer limit settings (incl. low-water 0 and high 0), all delivery '
+            '(at creation or by redirect_stdin) after every number 0..15 of deliveries; a pipe into a process that does not '
+            'read, then a new target for the blocked producer; (d) two write+drain rounds under 5 write-buffer limit settings (incl. low-water 0 and high 0), all delivery '
             'orders within the bound, and connection loss at every step'
             % len(orders))
     return core.finish(PROP, tier, seed, 'model_checking', acc, t0, rule,
@@ -870,6 +989,8 @@ def replay(rep):
         acc = full
     elif r['kind'] == 'exit':
         acc = exit_worker([tuple(r['order'])])
+    elif r['kind'] == 'bp':
+        acc = bp_worker([(r['cfg'], 0)])
     elif r['kind'] == 'pipe':
         acc = pipe_worker([(r['cfg'], 0)])
     elif r['kind'] == 'late-redirect':
